@@ -236,11 +236,11 @@ def run(ctx):
               and norm(s_.value) == 'self.determinants[%s][%s]' % (tp, num)]
         short_ = any(isinstance(n, ast.If) and norm(n.test).replace(' ', '') ==
                      'len(self.determinants[%s])<=%s' % (tp, num) for n in walk_no_nested(dfs))
-        if len(dd) == 1:
-            dv = norm(dd[0].targets[0])
-            fm = [n for n, tpl in string_builders(dfs)
-                  if [f[1] for f in tpl if f[0] == 'fld'] == [dv + '.value', dv + '.label']]
-            ok = len(fm) == 1 and short_
+        # the determinant may be read through a local or where it is printed
+        dvs = [norm(d.targets[0]) for d in dd] + ['self.determinants[%s][%s]' % (tp, num)]
+        fm = [n for n, tpl in string_builders(dfs) for dv in dvs
+              if [f[1] for f in tpl if f[0] == 'fld'] == [dv + '.value', dv + '.label']]
+        ok = len(fm) == 1 and short_
     ctx.ob('C02.R4', 'determinant-cell', ok,
            'a cell prints value and label of determinant [type][row], or the placeholder when '
            'the list is shorter', gmod, dfs)
